@@ -499,7 +499,16 @@ func runSPH(t *testing.T, ksc KScenario, res *KResult) {
 			peekBefore, _ = hi.PeekPacketNumber(protocol.Encryption1RTT)
 		}
 		lossTime, _ := h.getLossTimeAndSpace()
+		ptoBefore, ptoDue := h.ptoCount, monotime.Time(0)
+		if confirmed && h.handshakeConfirmed && lossTime.IsZero() && h.appDataPackets.history.HasOutstandingPackets() {
+			ptoDue, _ = h.getPTOTimeAndSpace(now)
+		}
 		err := hi.OnLossDetectionTimeout(now)
+		// the alarm also serves the loss timer of path probe packets: its expiry alone is not a probe timeout
+		if err == nil && !ptoDue.IsZero() && ptoDue.After(now) && h.ptoCount > ptoBefore {
+			res.Fail("PTO count incremented although the probe timeout had not expired", "alarm fired at %v for another reason (loss timer of a path probe packet); the PTO was due %v later; count %d -> %d", now, ptoDue.Sub(now), ptoBefore, h.ptoCount)
+			return
+		}
 		// a PTO in the application space burns one packet number (plus the generator's pending skip)
 		if peekBefore >= 0 {
 			if after, _ := hi.PeekPacketNumber(protocol.Encryption1RTT); after != peekBefore {
